@@ -481,6 +481,50 @@ def run_flatten_layout(rep):
                               replay=dict(module="contracts.containers", label=f"flatten-layout-{lay}"), witness=True)
 
 
+def run_optimizer_wrapper(rep):
+    """K-optimizer-wrapper: misc.optimizers.unflatten_optimizer(opt) (the container front-end of sgd / rmsprop / adam, built on flatten): the flat optimizer
+    receives flatten(x0) and a gradient function that is flatten o grad o unflatten; the callback sees containers; the result is unflatten(flat result);
+    extra positional / keyword options are handed on unchanged.  The flat optimizer is a recording stub; the three shipped optimizers are then run for
+    two steps on a nested container against their flat selves."""
+    import numpy as onp
+
+    from autograd.misc import optimizers as O
+    from autograd.misc.flatten import flatten
+    x0 = {"w": onp.array([[1.0, 2.0], [3.0, 4.0]]), "b": (onp.array([0.5]), 2.0)}
+    flat0, unfl = flatten(x0)
+    log = {}
+
+    def flat_opt(grad, x, callback=None, *args, **kwargs):
+        log["x"], log["args"], log["kwargs"] = x.copy(), args, kwargs
+        log["g"] = grad(x, 7)
+        if callback:
+            callback(x + 1.0, 3, log["g"])
+        return x * 2.0
+    seen = []
+    cgrad = lambda p, i: {"w": p["w"] * 3.0, "b": (p["b"][0] * 5.0, p["b"][1] * 7.0 + i)}
+    cb = lambda p, i, g: seen.append((p, i, g))
+    res = O.unflatten_optimizer(flat_opt)(cgrad, x0, cb, 11, step=0.5)
+    exp_g = flatten(cgrad(x0, 7))[0]
+    checks = [
+        ("flat start", onp.array_equal(log.get("x"), flat0)),
+        ("options handed on", log.get("args") == (11,) and log.get("kwargs") == {"step": 0.5}),
+        ("flat gradient = flatten(grad(unflatten(x), i))", onp.array_equal(log.get("g"), exp_g)),
+        ("callback sees containers", len(seen) == 1 and isinstance(seen[0][0], dict) and onp.array_equal(seen[0][0]["w"], x0["w"] + 1.0) and seen[0][1] == 3
+         and isinstance(seen[0][2], dict) and onp.array_equal(flatten(seen[0][2])[0], exp_g)),
+        ("result = unflatten(flat result)", isinstance(res, dict) and onp.array_equal(flatten(res)[0], flat0 * 2.0) and onp.array_equal(res["w"], x0["w"] * 2.0) and isinstance(res["b"], tuple)),
+        ("no callback", onp.array_equal(flatten(O.unflatten_optimizer(flat_opt)(cgrad, x0))[0], flat0 * 2.0)),
+    ]
+    for name in ("sgd", "rmsprop", "adam"):
+        opt = getattr(O, name)
+        r_c = opt(cgrad, x0, num_iters=2)
+        r_f = opt(lambda z, i: flatten(cgrad(unfl(z), i))[0], flat0, num_iters=2)
+        checks.append((f"{name}: container run == flat run", onp.allclose(flatten(r_c)[0], r_f, rtol=0, atol=0)))
+    for lab, ok in checks:
+        rep.bounded_case(("K-optimizer-wrapper", lab))
+        if not ok:
+            rep.violation("E4:K-optimizer-wrapper", lab, f"unflatten_optimizer: {lab} does not hold", replay=dict(module="contracts.containers", label=f"optimizer-wrapper:{lab}"), witness=True)
+
+
 def run_exact(rep, tier, clauses=("K-value", "K-structure", "K-leafwise", "K-jvp", "K-flatten-roundtrip", "K-flatten-commutes")):
     import multiprocessing as mp
     rep.bound(f"container exact runs: {len(CONTAINER_CASES)} programs over nested tuples/lists/dicts (depth <= 3) of exact symbolic scalars and small arrays")
@@ -506,6 +550,13 @@ def replay(spec):
         run_float_leaves(r)
         bad = [v for v in r.violations if "float-leaves:" + v["case"] == spec["label"]]
         return (not bad), (bad[0]["what"] if bad else "holds"), "value and leaf-wise gradient of the container program"
+    if "label" in spec and spec["label"].startswith("optimizer-wrapper:"):
+        from vlib.common import Report
+        r = Report("replay", "quick", "other", "replay")
+        r.known = {"findings": []}
+        run_optimizer_wrapper(r)
+        bad = [v for v in r.violations if "optimizer-wrapper:" + v["case"] == spec["label"]]
+        return (not bad), (bad[0]["what"] if bad else "holds"), "the flat optimizer (a recording stub) and flatten/unflatten"
     if "label" in spec and spec["label"].startswith("flatten-layout"):
         from vlib.common import Report
         r = Report("replay", "quick", "other", "replay")
